@@ -29,13 +29,13 @@ import (
 type Fault int
 
 const (
-	OK      Fault = iota
-	Absent        // ErrNotFound
-	Error         // generic I/O error
-	Garbage       // block bytes that do not decode as an IPLD node
-	Hang          // never completes; returns ctx.Err() once the context ends
-	Replace       // serve ReplaceWith[cid] instead of the stored bytes
-	CtxError      // an error of the block service's OWN making that wraps context.Canceled / DeadlineExceeded (an internal deadline), while the caller's context is alive
+	OK       Fault = iota
+	Absent         // ErrNotFound
+	Error          // generic I/O error
+	Garbage        // block bytes that do not decode as an IPLD node
+	Hang           // never completes; returns ctx.Err() once the context ends
+	Replace        // serve ReplaceWith[cid] instead of the stored bytes
+	CtxError       // an error of the block service's OWN making that wraps context.Canceled / DeadlineExceeded (an internal deadline), while the caller's context is alive
 )
 
 func (f Fault) String() string {
